@@ -96,4 +96,97 @@ theorem raw_roundtrip (v : Int) (hv : byteLen v.natAbs < 2 ^ 31) (x : Mpz) (hx :
 example : (mpz_inp_raw ⟨1, 0, [0]⟩ ⟨outRawBytes (-18446744073709551621) ++ [7, 7], none⟩ (fun _ => 1)).2.1.toInt
     = -18446744073709551621 := by decide +kernel
 
+/-! ## Export / import -/
+
+/-- `export_count`: for every value, word size ≥ 1, order, endianness, nail count below the word width
+    and buffer alignment, `mpz_export` reports `⌈bits(x) / (8·size − nails)⌉` words and writes exactly
+    the documented bytes (`exportBytes`: word `i` = bits `[numb·i, numb·(i+1))` of `x`, in `size` bytes of the
+    requested endianness, words in the requested order), `count·size` bytes in all. -/
+theorem export_count (x : Nat) (order endian : Int) (size nail align : Nat)
+    (ho : order = 1 ∨ order = -1) (he : endian = -1 ∨ endian = 0 ∨ endian = 1) (hs : 1 ≤ size)
+    (hn : nail < 8 * size) :
+    (mpz_export order size endian nail align (natLimbs x)).1 = (bitLen x + (8 * size - nail) - 1) / (8 * size - nail) ∧
+    (mpz_export order size endian nail align (natLimbs x)).2 = exportBytes order size endian nail x ∧
+    (mpz_export order size endian nail align (natLimbs x)).2.length
+      = (mpz_export order size endian nail align (natLimbs x)).1 * size := by
+  obtain ⟨h1, h2, h3⟩ := natLimbs_spec x
+  have e := mpz_export_spec order endian size nail align (natLimbs x) ho he hs hn h2 h3
+  rw [h1] at e
+  rw [e]
+  exact ⟨rfl, rfl, (exportBytes_shape order endian size nail x).1⟩
+
+-- non-vacuity: 3 nails in 2-byte big-endian words, least significant word first
+example : mpz_export (-1) 2 1 3 5 (natLimbs 0x1ffffffffffffffff) = (5, [31, 255, 31, 255, 31, 255, 31, 255, 31, 255]) := by
+  decide +kernel
+
+/-- `export_nails_zero`: read back word by word (in the order and endianness given), every word written
+    by `mpz_export` has `size` bytes and a value below `2^(8·size − nails)`: the nail bits are zero. -/
+theorem export_nails_zero (x : Nat) (order endian : Int) (size nail align : Nat)
+    (ho : order = 1 ∨ order = -1) (he : endian = -1 ∨ endian = 0 ∨ endian = 1) (hs : 1 ≤ size)
+    (hn : nail < 8 * size) :
+    ∀ w ∈ unlayout order (if endian = 0 then -1 else endian) size
+        (mpz_export order size endian nail align (natLimbs x)).1
+        (mpz_export order size endian nail align (natLimbs x)).2,
+      w.length = size ∧ leVal w < 2 ^ (8 * size - nail) := by
+  obtain ⟨h1, h2, h3⟩ := natLimbs_spec x
+  have e := mpz_export_spec order endian size nail align (natLimbs x) ho he hs hn h2 h3
+  rw [h1] at e
+  rw [e]
+  simp only
+  rw [exportBytes_words]
+  intro w hw
+  rw [List.mem_map] at hw
+  obtain ⟨i, _, rfl⟩ := hw
+  refine ⟨by simp, ?_⟩
+  rw [leVal_leBytes]
+  exact lt_of_le_of_lt (Nat.mod_le _ _) (wordOf_lt _ _ _)
+
+example : ∀ w ∈ unlayout 1 (-1) 3 (mpz_export 1 3 0 5 2 (natLimbs 0xffffffffffff)).1
+    (mpz_export 1 3 0 5 2 (natLimbs 0xffffffffffff)).2, leVal w < 2 ^ 19 := by decide +kernel
+
+/-- `import_spec`: for ARBITRARY word data (nail bits set or not), `mpz_import` produces the normalised
+    limbs of Σ (word i mod 2^(8·size − nails)) · 2^((8·size − nails)·i). -/
+theorem import_spec (count : Nat) (order : Int) (size : Nat) (endian : Int) (nail align : Nat)
+    (data : List Nat) (ho : order = 1 ∨ order = -1) (he : endian = -1 ∨ endian = 0 ∨ endian = 1)
+    (hs : 1 ≤ size) (hn : nail < 8 * size) (hb : Bytes data) (hl : data.length = count * size) :
+    val (mpz_import count order size endian nail align data) = importValue order size endian nail count data ∧
+    Limbs (mpz_import count order size endian nail align data) ∧
+    TopNZ (mpz_import count order size endian nail align data) :=
+  mpz_import_spec count order size endian nail align data ho he hs hn hb hl
+
+-- non-vacuity: nail bits set in the input are ignored (words ff ff with 3 nails, big-endian)
+example : mpz_import 2 1 2 1 3 1 [255, 255, 255, 255] = [0x3ffffff] := by decide +kernel
+
+/-- `export_import_id`: `mpz_export` followed by `mpz_import` with the same parameters reproduces `x`,
+    for every value, size ≥ 1, order ±1, endianness −1/0/+1, nail count below 8·size and any two buffer
+    alignments. -/
+theorem export_import_id (x : Nat) (order endian : Int) (size nail align align' : Nat)
+    (ho : order = 1 ∨ order = -1) (he : endian = -1 ∨ endian = 0 ∨ endian = 1) (hs : 1 ≤ size)
+    (hn : nail < 8 * size) :
+    val (mpz_import (mpz_export order size endian nail align (natLimbs x)).1 order size endian nail align'
+          (mpz_export order size endian nail align (natLimbs x)).2) = x ∧
+    mpz_import (mpz_export order size endian nail align (natLimbs x)).1 order size endian nail align'
+          (mpz_export order size endian nail align (natLimbs x)).2 = natLimbs x := by
+  obtain ⟨h1, h2, h3⟩ := natLimbs_spec x
+  have e := mpz_export_spec order endian size nail align (natLimbs x) ho he hs hn h2 h3
+  rw [h1] at e
+  rw [e]
+  simp only
+  obtain ⟨s1, s2⟩ := exportBytes_shape order endian size nail x
+  obtain ⟨i1, i2, i3⟩ := mpz_import_spec (exportCount (8 * size - nail) x) order size endian nail align'
+    (exportBytes order size endian nail x) ho he hs hn s2 s1
+  have hv := i1.trans (import_export_value order endian size nail x hn)
+  exact ⟨hv, normalized_unique i2 i3 h2 h3 (hv.trans h1.symm)⟩
+
+example : mpz_import 4 1 3 1 5 0 (mpz_export 1 3 1 5 3 (natLimbs 0xdeadbeefcafe1234)).2 = [0xdeadbeefcafe1234] := by
+  decide +kernel
+
+/-- the same round trip on the `List UInt8` specs -/
+theorem exportSpec_importSpec (x : Nat) (order endian : Int) (size nail : Nat) (hn : nail < 8 * size) :
+    importSpec order size endian nail (exportCount (8 * size - nail) x) (exportSpec order size endian nail x) = x := by
+  unfold importSpec exportSpec
+  rw [ofU8_toU8 (exportBytes_shape order endian size nail x).2]
+  exact import_export_value order endian size nail x hn
+
+
 end Mpir.Io
